@@ -1,7 +1,7 @@
 """C16 -- Taylor-expansion arithmetic commutes with evaluation (run-time contracts, level B; index tables exhaustive)."""
 from vf.common import Report, finish, SEED
 from vf.rtc import runner
-from contracts import taylor_rt as T
+from contracts import taylor_rt as T, taylor_sx as TS
 
 FUNCS = ['makeindexPowerYlm', 'makeYlmpow', 'makepowYlm', 'makeLprojections', 'makedirectmult', 'powexp', 'makepowercoeff', 'constructexpansion', '__call__',
          'negcoeff', 'scalarproductcoeff', 'sumcoeff', 'tensorproductcoeff', 'coeffproductcoeff', 'reducecoeff', 'collectcoeff', 'separatecoeff', 'truncatecoeff',
@@ -14,17 +14,19 @@ def main(tier):
     nseed = 3 if tier == 'quick' else 16
     runner.run(rep, 'Taylor::index-tables', T.w_tables, [(d, tier, SEED) for d in (3, 2)], 'onsager/PowerExpansion.py::Taylor3D.__initTaylor3Dindexing__')
     runner.run(rep, 'Taylor::arithmetic-contract', T.w_arith, [(d, tier, SEED * 100 + s) for d in (3, 2) for s in range(nseed)], 'onsager/PowerExpansion.py::Taylor3D')
+    TS.run_all(rep, tier)
     from vf import extract
     for cl, fs in (('Taylor3D', FUNCS), ('Taylor2D', FUNCS2)):
         for q in fs:
             try:
                 f = extract.get('onsager/PowerExpansion.py', cl + '.' + q); rep.under_contract('onsager/PowerExpansion.py::%s.%s' % (cl, q), 'onsager/PowerExpansion.py', f.l0, f.l1)
             except KeyError: pass
+    rep.assume('symbolic runs (level S): module global np replaced by a proxy whose zeros(dtype=complex) yields exact-zero object arrays; exact arithmetic instead of floating point; operands of one or two terms')
     rep.trust('scipy.special.sph_harm_y / numpy complex exponentials as the definition of the harmonics (3D: Condon-Shortley phase, orthonormal)')
     rep.assume('floating-point comparison at relative 2e-9 on O(1) random complex coefficients; reduce/separate drop blocks below their own 1e-10 threshold')
     rep.gaps += ['random expansions: powers n in -2..4, l <= 4, value shapes (), (3,), (2,2), (2,3); %d seeds per dimension' % nseed,
                  'the tables are decided only for the fixed maximum order Lmax = 4 the library uses',
-                 'no symbolic (all-coefficient) proof of the arithmetic: bounded run-time contracts only']
+                 'symbolic (all coefficient values, all evaluation points) identities cover sum / difference / products / scalar and matrix products / truncation / slices for operands of one or two terms; reduce, collect, separate, rotation and inversion involve floating-point projection tables and thresholds and stay bounded run-time contracts']
     return finish(rep, 'exploration',
                   'Each operation of the expansion algebra carries the postcondition V(result) = operation(V(operands)) for an independently written evaluation V, plus the frame that operands '
                   'keep their value and share no storage with the result; the index tables (monomial index, direct products, multinomials, harmonics <-> powers, l-projections) are checked '
